@@ -272,7 +272,10 @@ COMBINATORS = {
     'std::option::Option::filter': 'opt_filter', 'std::option::Option::unwrap_or_else': 'opt_unwrap_or_else',
     'std::option::Option::map_or': 'opt_map_or', 'std::option::Option::zip': 'opt_zip',
     'std::option::Option::is_some_and': 'opt_is_some_and', 'std::option::Option::ok_or_else': 'opt_ok_or_else',
-    'std::option::Option::or_else': 'opt_or_else',
+    'std::option::Option::or_else': 'opt_or_else', 'std::option::Option::map_or_else': 'opt_map_or_else',
+    'std::option::Option::unwrap_or_default': None, 'std::result::Result::map_or_else': 'res_map_or_else',
+    'std::result::Result::unwrap_or_else': 'res_unwrap_or_else', 'std::result::Result::map_or': 'res_map_or',
+    'std::result::Result::or_else': 'res_or_else', 'std::result::Result::ok_or_else': None,
     'std::result::Result::map': 'res_map', 'std::result::Result::and_then': 'res_and_then',
     'std::result::Result::map_err': 'res_map_err',
 }
@@ -601,6 +604,40 @@ def _desugar_one(facts, d, norm, bb, kind, depth):
                 return undo()
             noneb = set_dest_block({'k': 'use', 'op': args[1]})
             _switch_variant(d, blk, o, OPT, OPT_VARIANTS, {'Some': call, 'None': noneb}, ln)
+            return True
+        if kind in ('opt_map_or_else', 'res_map_or_else'):
+            # map_or_else(default_fn, f): f(payload) on Some / Ok, default_fn() (default_fn(err)) otherwise
+            call = _emit_fn_value_call(facts, d, norm, args[2], [payload_some], D, T, ln, depth)
+            if call is None:
+                return undo()
+            dargs = [] if adt == OPT else [{'k': 'move', 'pl': _payload(o, RES, 'Err')}]
+            dflt = _emit_fn_value_call(facts, d, norm, args[1], dargs, D, T, ln, depth)
+            if dflt is None:
+                return undo()
+            _switch_variant(d, blk, o, adt, variants, {some_name: call, none_name: dflt}, ln)
+            return True
+        if kind == 'res_map_or':
+            call = _emit_fn_value_call(facts, d, norm, args[2], [payload_some], D, T, ln, depth)
+            if call is None:
+                return undo()
+            noneb = set_dest_block({'k': 'use', 'op': args[1]})
+            _switch_variant(d, blk, o, RES, RES_VARIANTS, {'Ok': call, 'Err': noneb}, ln)
+            return True
+        if kind == 'res_unwrap_or_else':
+            call = _emit_fn_value_call(facts, d, norm, args[1], [{'k': 'move', 'pl': _payload(o, RES, 'Err')}], D, T, ln,
+                                       depth)
+            if call is None:
+                return undo()
+            okb = set_dest_block({'k': 'use', 'op': payload_some})
+            _switch_variant(d, blk, o, RES, RES_VARIANTS, {'Ok': okb, 'Err': call}, ln)
+            return True
+        if kind == 'res_or_else':
+            call = _emit_fn_value_call(facts, d, norm, args[1], [{'k': 'move', 'pl': _payload(o, RES, 'Err')}], D, T, ln,
+                                       depth)
+            if call is None:
+                return undo()
+            okb = set_dest_block(_agg(RES, 'Ok', [payload_some]))
+            _switch_variant(d, blk, o, RES, RES_VARIANTS, {'Ok': okb, 'Err': call}, ln)
             return True
         if kind == 'opt_is_some_and':
             call = _emit_fn_value_call(facts, d, norm, args[1], [payload_some], D, T, ln, depth)
